@@ -123,6 +123,10 @@ func genC18(t *rapid.T) c18Case {
 				p["code"] = rapid.SampledFrom([]interface{}{5.0, true, M{"x": 1.0}}).Draw(t, l+".illtypedcode")
 			case 2:
 				p["code"] = "((("
+			case 3:
+				// a script that needs a library of the location's control
+				p["code"] = "answer() + 1"
+				p["libraries"] = A{"lib0"}
 			}
 		case "ingest":
 			ev := M{"e": str(l + ".e")}
@@ -190,6 +194,7 @@ func c18Engine(linear bool) (*sys.System, *service.HTTPService, error) {
 	cont.Timing = false
 	cont.LocationTTL = sys.Forever
 	cont.DefaultLocControl = quietControl()
+	cont.DefaultLocControl.Libraries = map[string]string{"lib0": "function answer() { return 41; }"}
 	s, err := sys.NewSystem(newCtx(), *conf, *cont, nullCron{})
 	if err != nil {
 		return nil, nil, err
@@ -407,7 +412,15 @@ func c18Direct(s *sys.System, r c18Req, gens map[string]bool) c18Result {
 			return fail
 		}
 		bs := core.Bindings{}
-		x, err := s.RunJavascript(ctx, loc, code, nil, &bs, nil)
+		var libs []string
+		if ls, given := p["libraries"].(A); given {
+			for _, l := range ls {
+				if s, ok := l.(string); ok {
+					libs = append(libs, s)
+				}
+			}
+		}
+		x, err := s.RunJavascript(ctx, loc, code, libs, &bs, nil)
 		if err != nil {
 			return fail
 		}
@@ -620,7 +633,7 @@ func c18Render(kind, prefix string, r c18Req) (method, target, body string, ok b
 	form := url.Values{}
 	for k, v := range r.Params {
 		switch k {
-		case "fact", "rule", "pattern", "query", "event":
+		case "fact", "rule", "pattern", "query", "event", "libraries":
 			form.Set(k, jsonParam(v))
 		default:
 			form.Set(k, fmt.Sprint(v))
